@@ -297,7 +297,9 @@ FLAGSETS = {
     "dashdash": ["-r", "--", "extra"], "dashdash_ok": ["-r", "--"], "d_attached": ["-r", "-d{F}"],
 }
 F_POOL = ["/data/other.root", "/data/sub/dir/file_2.root", "root://host//path/f.root", "/data/with space.root"]
-O_POOL = ["/out2", "/out2/named.root", "/results", "/out2/second.root"]
+# destinations: an existing directory, file names - also ones that do not end in .root (an output named after its input
+# file, ATLAS / ServiceX style, or a name without any extension): -o names the place, whatever it is called
+O_POOL = ["/out2", "/out2/named.root", "/results", "/out2/second.root", "/out2/AOD.0001._000042.pool.root.1", "/out2/ntuple_17"]
 
 
 def flag_args(fs, F, O):
